@@ -31,7 +31,14 @@ LIB.class_bases[BOX] = ["gymnasium.spaces.Space"]
 LIB.class_bases["gymnasium.core.Env"] = [ENV]
 
 
+VECTOR_ENVS = set()  # names of vector environments (pyvc/lib/ext_vecenv.py): their step outputs are batched payloads
+
+
 def env_funcs(name):
+    if name in VECTOR_ENVS:
+        from .ext_vecenv import vec_funcs
+
+        return vec_funcs(name)
     return dict(
         OBS=C.uf(f"OBS_{name}", INT, VAL), REW=C.uf(f"REW_{name}", INT, REAL), TERM=C.uf(f"TERM_{name}", INT, BOOL),
         TRUNC=C.uf(f"TRUNC_{name}", INT, BOOL), RESET=C.uf(f"RESET_{name}", INT, VAL))
